@@ -30,26 +30,25 @@ impl PartialOrd for Address {
 }
 
 impl Ord for Address {
+    /// A total order that agrees with `==`: by port, then by the bytes of the host (the name, or the octets of the address); a
+    /// name never equals an address, even when its bytes are that address's octets.
     fn cmp(&self, other: &Self) -> std::cmp::Ordering {
-        fn cmp_ip_addr(this: &[u8], other: IpAddr) -> std::cmp::Ordering {
-            match other {
-                IpAddr::V4(ref ipv4_addr) => this.cmp(&ipv4_addr.octets()),
-                IpAddr::V6(ref ipv6_addr) => this.cmp(&ipv6_addr.octets()),
+        fn with_key<R>(address: &Address, f: impl FnOnce(u16, &[u8], u8) -> R) -> R {
+            match address {
+                Address::Domain(host, port) => f(*port, host.as_bytes(), 0),
+                Address::Socket(addr) => match addr.ip() {
+                    IpAddr::V4(ip) => f(addr.port(), &ip.octets(), 1),
+                    IpAddr::V6(ip) => f(addr.port(), &ip.octets(), 1),
+                },
             }
         }
-
-        match (self, other) {
-            (Address::Domain(this_host, this_port), Address::Domain(other_host, other_port)) => {
-                this_port.cmp(other_port).then_with(|| this_host.cmp(other_host))
-            }
-            (Address::Domain(this_host, this_port), Address::Socket(other_addr)) => {
-                this_port.cmp(&other_addr.port()).then_with(|| cmp_ip_addr(this_host.as_bytes(), other_addr.ip()))
-            }
-            (Address::Socket(this_addr), Address::Domain(other_host, other_port)) => {
-                this_addr.port().cmp(other_port).then_with(|| cmp_ip_addr(other_host.as_bytes(), this_addr.ip()).reverse())
-            }
+        with_key(self, |this_port, this_host, this_kind| {
+            with_key(other, |other_port, other_host, other_kind| this_port.cmp(&other_port).then_with(|| this_host.cmp(other_host)).then(this_kind.cmp(&other_kind)))
+        })
+        .then_with(|| match (self, other) {
             (Address::Socket(this), Address::Socket(other)) => this.cmp(other),
-        }
+            _ => std::cmp::Ordering::Equal,
+        })
     }
 }
 
